@@ -282,6 +282,23 @@ def c08(ctx):
                                    "later seasons restart from it while a fresh run adjusts to its own first day",
                                    season=int(k), irr_method=m, diff=bad))
                     continue
+            if bad is not None and not sc["crop"].get("harvest") and int(S.crop_params[sc["crop"]["name"]].get("CalendarType", 1)) == 2:
+                # a thermal-time crop without a configured harvest date: the latest harvest date (month/day) is derived once,
+                # from the degree days of the FIRST simulated season, and closes every later season; a fresh run derives it
+                # from its own first season.  Confirm that this is the only difference: state the multi-season run's date
+                # explicitly in the fresh run and compare again.
+                try:
+                    sc3 = copy.deepcopy(sc1)
+                    sc3["crop"] = dict(sc3["crop"], harvest=str(model.crop.harvest_date))
+                    fresh3 = run_full(sc3)
+                    if not fresh3.error and _c08_cmp(multi, fresh3, p_idx, h_step, row) is None:
+                        viols.append(V("C08", "harvest-date-derived-from-first-season-weather", sc,
+                                       "the latest harvest date of a thermal-time crop is derived from the first simulated season's weather and closes "
+                                       "every later season; a fresh run derives another date",
+                                       season=int(k), multi_harvest_date=str(model.crop.harvest_date), diff=bad))
+                        continue
+                except Exception:  # noqa: BLE001
+                    pass
             if bad is not None:
                 key = "season-differs-" + bad.get("table", "x") + (f"-col{bad['col']}" if "col" in bad else "")
                 viols.append(V("C08", key, sc, "season k of a multi-season run differs from a fresh single-season run",
